@@ -40,7 +40,8 @@ def main():
     repo = os.path.join(SCRATCH, "repo")
     build = os.path.join(SCRATCH, "build")
     os.makedirs(SCRATCH, exist_ok=True)
-    sh("rsync -a --delete --exclude target --exclude .git /repo/ %s/" % repo)
+    # (the source tree can be overridden while something else has a change applied to /repo)
+    sh("rsync -a --delete --exclude target --exclude .git %s/ %s/" % (os.environ.get("VERIF_SELFTEST_SRC", "/repo").rstrip("/"), repo))
     env = dict(os.environ)
     env["VERIF_REPO"] = repo
     env["VERIF_BUILD"] = build
